@@ -479,7 +479,7 @@ impl Check for C17 {
             for form in forms {
                 let link = form.replace("{}", t);
                 let src = format!(
-                    "import ok_dep;\nimport missing_dep;\nimport failing_dep;\n\n/// See {l}.\nstruct Foo {{\n    /// Field {l}\n    bar @ 1 = u8;\n}}\n\n/// {l}\nenum E {{\n    /// {l}\n    A @ 1;\n}}\n\n/// {l}\nservice Svc {{\n    uuid = e0af57f3-5537-48c6-b04d-e9011803609c;\n    version = 1;\n\n    /// {l}\n    fn f @ 1 {{\n        /// {l}\n        args = struct {{ /// {l}\n x @ 1 = u8; }}\n    }}\n\n    /// {l}\n    event e @ 1;\n}}\n\n/// {l}\nconst C = u8(1);\n\n/// {l}\nnewtype N = u8;\n",
+                    "import ok_dep;\nimport missing_dep;\nimport failing_dep;\n\n/// See {l}.\nstruct Foo {{\n    /// Field {l}\n    bar @ 1 = u8;\n}}\n\n/// {l}\nenum E {{\n    /// {l}\n    A @ 1;\n}}\n\n/// {l}\nservice Svc {{\n    uuid = e0af57f3-5537-48c6-b04d-e9011803609c;\n    version = 1;\n\n    /// {l}\n    fn f @ 1 {{\n        args = struct {{\n            /// {l}\n            x @ 1 = u8;\n        }}\n    }}\n\n    /// {l}\n    event e @ 1;\n}}\n\n/// {l}\nconst C = u8(1);\n\n/// {l}\nnewtype N = u8;\n",
                     l = link
                 );
                 let mut obs = Vec::new();
@@ -488,6 +488,14 @@ impl Check for C17 {
                 match guarded(|| front_end("probe", &src, &others, &mut obs)) {
                     Err(p) => out.violation(format!("panic:{}", panic_site(&p)), format!("front end panicked on a doc link {:?}: {}", link, p), json!({"doc_link": link, "source": src, "seed": ctx.seed})),
                     Ok(first) => {
+                        if std::env::var("VERIF_DEBUG_PROBE").is_ok() {
+                            eprintln!("PROBE {} => {:#?}", link, first);
+                        }
+                        // a probe whose text does not even parse would test nothing
+                        if first.iter().any(|d| d.contains("expected ")) {
+                            out.count("doc_link_probes_with_syntax_error", 1);
+                            out.inconclusive(format!("the doc-link probe for {:?} does not parse (harness error): {}", link, first.iter().find(|d| d.contains("expected ")).cloned().unwrap_or_default().chars().take(200).collect::<String>()));
+                        }
                         // repeatability of the diagnostics
                         let mut obs2 = Vec::new();
                         if let Ok(mut second) = guarded(|| front_end("probe", &src, &others, &mut obs2)) {
